@@ -376,6 +376,146 @@ def rule_products_are_independent(rep, repo):
     raise AnalysisError("instance-count only %d factory sequences" % n)
 
 
+CF = "qkeras.qtools.quantized_operators.accumulator_factory"
+
+
+def rule_history_independence(rep, repo):
+  """R13: the type of a product depends on the operand TYPES, not on what
+  the operand objects were used for before.  In a model one activation type
+  object feeds several consumers and one weight type is asked for its range
+  by several operators, so every operand is first used in products (and
+  accumulators) with partners of every kind - which makes it answer all its
+  range queries - and only then in the product under test; multiplier and
+  accumulator types must equal the ones obtained from freshly made operands
+  of the same types."""
+  mf = repo.module(MF)
+  cf = repo.module(CF)
+  unit = "%s::MultiplierFactory.make_multiplier" % mf.relpath
+  loc = mf.loc(mf.classes["MultiplierFactory"].node)
+  fields = ("mode", "bits", "int_bits", "is_signed", "max_val_po2", "name",
+            "is_floating_point")
+  kinds = ("fixed_s", "fixed_u", "po2_s", "po2_u", "ternary", "binary",
+           "binary01")
+  widths = {"w": (5, 2), "x": (6, 1), "p": (3, 0)}
+
+  def operand(pe, kind, tag):
+    q = ta.make_operand(pe, repo, kind, tag)
+    bits, ib = widths[tag]
+    if kind.startswith("fixed"):
+      q.attrs["bits"], q.attrs["int_bits"] = bits, ib
+    elif kind.startswith("po2"):
+      q.attrs["bits"] = q.attrs["int_bits"] = bits
+    return q
+
+  def snap(q):
+    return {f_: q.attrs.get(f_) for f_ in fields} if isinstance(
+        q, Obj) else q
+
+  def product(pe, w, x):
+    fac = pe.call(pe.lookup_global("MultiplierFactory", mf), [], {})
+    m = pe.call(pe.getattr(fac, "make_multiplier"), [w, x], {})
+    afac = pe.call(pe.lookup_global("AccumulatorFactory", cf), [], {})
+    acc = pe.call(pe.getattr(afac, "make_accumulator"), [[3, 3, 4, 8], m],
+                  {"use_bias": True})
+    return snap(m.attrs.get("output")), snap(acc.attrs.get("output"))
+  n = 0
+  for kw in kinds:
+    for kx in kinds:
+      cfg = "make_multiplier(%s, %s) + accumulator after the operands " \
+          "served other products" % (kw, kx)
+      pe = PE(repo)
+      try:
+        fresh = product(pe, operand(pe, kw, "w"), operand(pe, kx, "x"))
+      except PyRaise:
+        continue        # the pair itself is rejected (decided by R1/R2)
+      w, x = operand(pe, kw, "w"), operand(pe, kx, "x")
+      for kp in kinds:
+        for pair in ((w, None), (None, x)):
+          try:
+            partner = operand(pe, kp, "p")
+            product(pe, pair[0] or partner, pair[1] or partner)
+          except PyRaise:
+            pass
+      try:
+        used = product(pe, w, x)
+      except PyRaise as e:
+        rep.fail("R13", unit, "factory-raises-on-used-operands",
+                 "%s raises %s although fresh operands are accepted" % (
+                     cfg, e), loc=loc, instance=cfg)
+        continue
+      n += 1
+      rep.check(used == fresh, "R13", unit,
+                "product-depends-on-operand-history",
+                "%s: multiplier / accumulator types %r, with freshly made "
+                "operands of the same types %r" % (cfg, used, fresh),
+                loc=loc, instance=cfg)
+  if n < 30:
+    raise AnalysisError("instance-count only %d operand pairs" % n)
+  # the same for an operand that is re-sized through its own API after it
+  # has answered range queries (through a product and directly): the product follows the operand's current
+  # type (what a freshly made operand re-sized the same way gives)
+  qi = repo.module(ta.QI)
+  qmod = repo.module("qkeras.quantizers")
+  unit2 = "%s::PowerOfTwo" % qi.relpath
+
+  def upd(val, reset):
+    return lambda pe, q: pe.call(pe.getattr(q, "update_quantizer"), [val],
+                                 {"reset": reset})
+
+  def conv(cls, **kw):
+    return lambda pe, q: pe.call(
+        pe.getattr(q, "convert_qkeras_quantizer"),
+        [pe.call(pe.lookup_global(cls, qmod), [], dict(kw))], {})
+  changes = [
+      ("po2_s", "update_quantizer(2**-8, reset=True)", upd(F(1, 256), True)),
+      ("po2_s", "update_quantizer(-2**-8, reset=True)", upd(F(-1, 256),
+                                                            True)),
+      ("po2_u", "update_quantizer(16, reset=True)", upd(F(16), True)),
+      ("po2_s", "update_quantizer(1/2)", upd(F(1, 2), False)),
+      ("po2_s", "convert_qkeras_quantizer(quantized_po2(6))",
+       conv("quantized_po2", bits=6)),
+      ("po2_s", "convert_qkeras_quantizer(quantized_po2(4, max_value=2))",
+       conv("quantized_po2", bits=4, max_value=2)),
+      ("po2_u", "convert_qkeras_quantizer(quantized_relu_po2(6))",
+       conv("quantized_relu_po2", bits=6)),
+  ]
+  m = 0
+  for kind, label, change in changes:
+    for partner in ("fixed_s", "fixed_u", "po2_s", "binary"):
+      for side in ("weight", "input"):
+        cfg = "%s operand (%s side, partner %s): used, then %s, then " \
+            "used again" % (kind, side, partner, label)
+        pe = PE(repo)
+
+        def run_(q):
+          other = operand(pe, partner, "x")
+          return product(pe, q, other) if side == "weight" else product(
+              pe, other, q)
+        try:
+          q1 = operand(pe, kind, "w")
+          change(pe, q1)
+          fresh = run_(q1)
+          q2 = operand(pe, kind, "w")
+          run_(q2)
+          if hasattr(q2, "cls") and q2.cls.find_method(
+              "get_min_max_exp")[1] is not None:
+            pe.call(pe.getattr(q2, "get_min_max_exp"), [], {})
+          change(pe, q2)
+          used = run_(q2)
+        except PyRaise:
+          continue
+        m += 1
+        rep.check(used == fresh, "R13", unit2,
+                  "product-ignores-resized-operand",
+                  "%s: multiplier / accumulator types %r; an operand "
+                  "re-sized the same way without the earlier use gives %r" %
+                  (cfg, used, fresh), loc=loc, instance=cfg)
+  rep.extra["resized_operand_sequences"] = m
+  if m < 30:
+    raise AnalysisError("instance-count only %d re-sized operand sequences"
+                        % m)
+
+
 def rule_float_products(rep, repo):
   """R12: floating-point operands.  The product type is floating point, as
   wide as the widest floating-point operand (a product of an fp32 and an
@@ -653,6 +793,7 @@ def run(rep, repo, tier):
   rule_products_are_independent(rep, repo)
   rep.require_instances("R11", 16)
   rule_float_products(rep, repo)
+  rule_history_independence(rep, repo)
   rep.require_instances("R12", 30)
   rep.require_instances("R10", 200)
   rep.require_instances("R1", 36)
